@@ -116,15 +116,30 @@ def rule_enc(ctx):
         ok = star_i == len(elts) - 2 and isinstance(n.value, ast.Name)
         ctx.ob("C06.ENC", n, f"lines are unpacked as ({', '.join(('*' if i == star_i else '') + x for i, x in enumerate(names))}) from the whole sequence", ok,
                "reply lines are not unpacked as [head,] *body, tail of the whole sequence", construct=f"write_response:unpack {src(n.targets[0])}")
-        # the tail is written last in the same block with the 'last' form
-        blk = p.parent.get(n)
-        body = getattr(blk, "body", []) if n in getattr(blk, "body", []) else getattr(blk, "orelse", [])
-        tailname = names[-1]
-        last_stmt = body[-1] if body else None
-        ok = last_stmt is not None and any(is_write(c) and flat_concat(c.args[-1])[-1:] and isinstance(flat_concat(c.args[-1])[-1], ast.Name) and flat_concat(c.args[-1])[-1].id == tailname
-                                           and len(flat_concat(c.args[-1])) == 3 and isinstance(flat_concat(c.args[-1])[1], ast.Constant) and flat_concat(c.args[-1])[1].value == " "
-                                           for c in walk_self(last_stmt))
-        ctx.ob("C06.ENC", n, "the tail line is written last with the 'code<space>' form", ok, "the tail of the reply is not written last as code+' '+tail", construct="write_response:tail")
+    # on every path through the encoder the final write is code+' '+<the tail unpacked on that path>, and nothing is written after it
+    tail_ok = True
+    n_paths = 0
+    for ev, out in Cfg(lambda n: [], p.issub, unroll=2).seq(wr.body):
+        if out[0] in ("cut", "raise"):
+            continue
+        n_paths += 1
+        tails = []
+        seq = []
+        for e in ev:
+            if e[0] != "stmt":
+                continue
+            n = e[1]
+            if isinstance(n, ast.Assign) and isinstance(n.targets[0], ast.Tuple) and any(isinstance(x, ast.Starred) for x in n.targets[0].elts):
+                last_el = n.targets[0].elts[-1]
+                tails.append(last_el.id if isinstance(last_el, ast.Name) else None)
+            for c in walk_self(n):
+                if is_write(c):
+                    parts = flat_concat(c.args[-1])
+                    seq.append(tuple(x.id if isinstance(x, ast.Name) else x.value if isinstance(x, ast.Constant) else "?" for x in parts))
+        if not seq or not tails or seq[-1] != (code, " ", tails[-1]) or any(s_[-1] == tails[-1] for s_ in seq[:-1]):
+            tail_ok = False
+    ctx.ob("C06.ENC", wr, f"on each of the {n_paths} encoder paths the last line written is code+' '+tail (exactly once)", tail_ok and n_paths >= 2,
+           "the tail of the reply is not written last as code+' '+tail on every path", construct="write_response:tail")
     # write_line appends exactly one END_OF_LINE and encodes with the server encoding
     wl = p.method("Server", "write_line")
     enc = [c for c in walk_no_nested(wl) if isinstance(c, ast.Call) and is_method_call(c, "encode")]
@@ -345,7 +360,8 @@ def rule_cmd(ctx):
     ok = len(parts) == 1 and parts[0].value.func.attr == "partition" and parts[0].value.args and isinstance(parts[0].value.args[0], ast.Constant) and parts[0].value.args[0].value == " "
     ctx.ob("C06.CMD", pc, "the command line is split with partition(' ') (first space)", ok, "the command line is not split at the first space", construct="parse_command:split")
     rets = [n for n in walk_no_nested(pc) if isinstance(n, ast.Return) and isinstance(n.value, ast.Tuple) and len(n.value.elts) == 2]
-    ok = bool(rets) and isinstance(rets[-1].value.elts[0], ast.Call) and is_method_call(rets[-1].value.elts[0], "lower")
+    verb = deep_expand(p, rets[-1].value.elts[0], pc) if rets else None
+    ok = bool(rets) and isinstance(verb, ast.Call) and is_method_call(verb, "lower")
     ctx.ob("C06.CMD", pc, "the verb is returned lower-cased (the table keys are lower case)", ok, "parse_command does not return the lower-cased verb", construct="parse_command:verb case")
     table, _ = p.command_table()
     ctx.ob("C06.CMD", pc, "all command-table keys are lower case", all(k == k.lower() for k in table), "command table has non-lower-case keys", construct="table:case")
